@@ -13,19 +13,26 @@ LEVEL_TEXT = ("Coq theorems in the abstract ordered *-field (every length, order
               "specification ((S,Vh) spec for FB(x) => (|c| S, Vh) spec for FB(c x); decisions unchanged; MUSIC unchanged, EV times |c|) are "
               "homogeneous; class level: for every pipeline table stored(k*S) = k*stored(S), and over the table GENERATED from the snapshot on this "
               "run every class is routed to a proved-homogeneous estimator and every AR/MA/ARMA class hands the estimated variance to arma2psd "
-              "(linear in rho).  Models are tied to the code by exact in-Coq correspondence at scaled inputs (here: CORRELATION, LEVINSON, arburg, "
-              "aryule, arcovar, modcovar, speriodogram; the other models by the correspondence runs of C01 C14 C16 C17 C19); every estimator "
+              "(linear in rho).  arma.ma, arma.arma_estimate and the parma / pma objects (the model of C15): same AR / MA coefficients, |c|^2 rho, "
+              "same exception, stored PSD times |c|^2, for any covariance-method oracles that agree on the two systems they are handed (proved for "
+              "the executable solver of Model/Ls.v; for C15's elimination oracle when no pivot vanishes); guard: residual not identically zero.  "
+              "DaniellPeriodogram (new model Model/Daniell.v: bin-count parity decides the layout, bin 0 is never averaged in) is linear in the "
+              "periodogram bins, hence homogeneous for ANY c.  "
+              "Models are tied to the code by exact in-Coq correspondence at scaled inputs (here: CORRELATION, LEVINSON, arburg, "
+              "aryule, arcovar, modcovar, speriodogram, arma_estimate, DaniellPeriodogram (also at binary64); the other models by the correspondence runs of C01 C14 C15 C16 C17 C19); every estimator "
               "(function and class form) is also covered by a property-directed search comparing estimate(c*x) with |c|^p * estimate(x).")
 TRUSTED = ["Coq 8.16.1 kernel + vm_compute",
-           "hand-written models coq/Model/{Corr,Levinson,Burg,Periodogram,Yule,Ls,Minvar,Mtm,Eigen,Arma2psd}.v (tie = correspondence runs, here at "
-           "scaled inputs for Corr/Levinson/Burg/Yule/Ls/Periodogram, in C16/C17/C19 for Minvar/Eigen/Mtm)",
+           "hand-written models coq/Model/{Corr,Levinson,Burg,Periodogram,Yule,Ls,Minvar,Mtm,Eigen,Arma2psd,ArmaEst,ArmaCall,Daniell}.v (tie = correspondence runs, here at "
+           "scaled inputs for Corr/Levinson/Burg/Yule/Ls/Periodogram/ArmaEst/Daniell, in C15 for ArmaEst and its class pipeline, in C16/C17/C19 for Minvar/Eigen/Mtm)",
+           "arcovar_marple / scipy lstsq inside arma_estimate are oracles of the model: the arma_estimate / parma theorems assume they return the same "
+           "coefficients for a system and its |c|^2 multiple (true of any solver of the normal equations of a full-rank system)",
            "fail-closed AST translator tools/props/_pipelines.py and the interpreter coq/Model/PipelineLib.v (validated against real objects by C08)",
            "numpy.linalg.svd / scipy.linalg.lstsq / numpy.fft / dpss enter as specifications (Section variables with hypotheses), argmin of "
            "aic_eigen / mdl_eigen as an oracle argument",
            "log_criteria_homogeneous is stated over the standard-library reals (axioms: sig_forall_dec, sig_not_dec, "
            "functional_extensionality_dep, classic); all other theorems are axiom-free",
            "Python harness"]
-UNPROVED = ["arma_estimate / ma (no merged model), DaniellPeriodogram, arcovar_marple / modcovar_marple: search only",
+UNPROVED = ["arcovar_marple / modcovar_marple as stand-alone recursions: search only (inside arma_estimate arcovar_marple is the oracle lsm)",
             "invariance of the argmin of aic_eigen / mdl_eigen (logarithms; an oracle argument of the Eigen model): search only",
             "that numpy's svd / lstsq return related factorisations for x and c*x (theorems are over their specifications); binary64 rounding"]
 ASSUMPTIONS = ["exact arithmetic in the theorems",
@@ -34,7 +41,9 @@ ASSUMPTIONS = ["exact arithmetic in the theorems",
                "and no zero EV denominator bin (bin-by-bin version without it)"]
 RULE = ("data: noise, tones in noise, integer (incl. 16-bit scale), AR-generated; real and complex; N 16..64; scalars |c| log-uniform in "
         "[1e-3,1e3] with random sign/phase; every functional estimator and every PSD class with orders in their domain; "
-        "non-trivial = non-constant data and order >= 2 where an order exists; distinct = distinct (estimator, config, data, c)")
+        "non-trivial = non-constant data and order >= 2 where an order exists; distinct = distinct (estimator, config, data, c); "
+        "plus: every class with the operation history psd / p.data *= c / psd on ONE object, and the Fourier family on complex-typed data "
+        "with zero imaginary part times a genuinely complex c")
 GEN_NAMES = ['class_scale', 'class_estimator_routing', 'model_classes_rho_routed']
 
 PRE = """Require Import Spectrum.Theory.Ops Spectrum.Theory.Vec Spectrum.Theory.Dft Spectrum.Model.Levinson Spectrum.Model.Burg Spectrum.Model.Corr
@@ -64,6 +73,23 @@ Definition covar_scaled tol (s : Qc) (modified : bool) (c : QcC) (x : list QcC) 
 (* speriodogram on the exact 4-point grid, scale_by_freq off (2*pi is then not read) *)
 Definition per_scaled tol (c : QcC) (x w : list QcC) (isreal : bool) (dt : pyval) (ipsd : list QcC) :=
   qcc_close_rel tol (dy 1 0) (@speriodogram _ qcc_ops tw4 (cz (0,0) (0,0)) (@vscale _ qcc_ops c x) w (Some 4%nat) isreal dt PyFalse (cz (1,0) (0,0))) ipsd.
+"""
+
+PRE_DANIELL = """Require Import Spectrum.Theory.Ops Spectrum.Theory.Vec Spectrum.Theory.Dft Spectrum.Model.Periodogram Spectrum.Model.Daniell
+               Spectrum.Instances.QcC Spectrum.Instances.QcCTw.
+From Coq Require Import QArith Qcanon.
+Local Open Scope Z_scope.
+Definition dan_smooth_case tol (psd : list QcC) (P : nat) (inew : list QcC) : bool :=
+  qcc_close_rel tol (dy 1 0) (@daniell_smooth _ qcc_ops psd P) inew.
+Definition dan_full_case tol (c : QcC) (x w : list QcC) (P : nat) (isreal : bool) (dt : pyval) (inew : list QcC) : bool :=
+  qcc_close_rel tol (dy 1 0)
+    (@daniell _ qcc_ops tw4 (cz (0,0) (0,0)) (@vscale _ qcc_ops c x) w P (Some 4%nat) isreal dt PyFalse (cz (1,0) (0,0))) inew.
+"""
+PRE_DANIELL_F = """From Coq Require Import PrimFloat.
+Require Import Spectrum.Theory.Ops Spectrum.Theory.Vec Spectrum.Model.Daniell Spectrum.Instances.FloatC Spectrum.Instances.QcC.
+Definition dan_smooth_float (tol : float) (psd : list float) (P : nat) (inew : list float) : bool :=
+  f_close_rel tol 0x1p-1000%float (@daniell_smooth _ f_ops psd P) inew.
+Local Open Scope float_scope.
 """
 
 
@@ -223,6 +249,25 @@ def one_class(cls, x, cfg, NFFT, sampling, c, rtol=1e-6, route='fresh'):
     return compare(out0, out1, c, rtol)
 
 
+def object_outputs(cls, p):
+    out = {'psd': (np.array(p.psd), 0 if cls == 'pmusic' else 1 if cls == 'pev' else 2)}
+    for k, v in E.model_params(p).items():
+        power = {'ar': 0, 'ma': 0, 'reflection': 0, 'rho': 2, 'weights': 0, 'eigenvalues': 1 if cls in ('pmusic', 'pev') else 0}[k]
+        out[k] = (np.array(v), power)
+    return out
+
+
+def one_class_inplace(cls, x, cfg, NFFT, sampling, c, rtol=1e-6):
+    """operation history on ONE object: read the PSD, rescale the data through the object (p.data *= c), read again"""
+    p = E.build(cls, np.array(x), cfg, NFFT=NFFT, sampling=sampling, scale_by_freq=False)
+    out0 = object_outputs(cls, p)
+    p.data *= c
+    if not np.allclose(np.asarray(p.data), c * np.asarray(x)):
+        return [('data', 'p.data *= c did not rescale the data held by the object')]
+    out1 = object_outputs(cls, p)
+    return compare(out0, out1, c, rtol)
+
+
 
 # ------------------------------------------------------------------ aic_eigen / mdl_eigen: the formulas of Proofs/CriteriaEigenR_C03.v
 def eigen_criterion_model(s, N, which):
@@ -263,6 +308,8 @@ def replay(rep):
             return not one_criterion(r['estimator'], np.real(x), r['N'], float.fromhex(r['m']))
         if r['form'] == 'function':
             return not one_function(r['estimator'], x, cfg, c)
+        if r['form'] == 'class-inplace':
+            return not one_class_inplace(r['estimator'], x, cfg, r.get('NFFT'), r.get('sampling', 1.0), c)
         return not one_class(r['estimator'], x, cfg, r.get('NFFT'), r.get('sampling', 1.0), c, route=r.get('route', 'fresh'))
     except Exception:
         return False
@@ -530,3 +577,131 @@ def run(ctx):
             continue
         for oname, what in compare(out0, out1, c, 1e-6):
             ctx.violation('scale/%s/%s' % (cls, oname), '%s, %s: %s' % (cls, oname, what), rep)
+
+    # ---------------- arma_estimate (the model of C15, which the ma / arma_estimate / parma theorems are about) at scaled inputs:
+    # c*x is built inside Coq from the low-bit data, the implementation is called on the numerically scaled array (dyadic c: exact)
+    from props import _c03_arma_corr as AC
+
+    def scaled(rng_, x, cplx):
+        c = (complex(rng_.integers(-6, 7), rng_.integers(-6, 7)) / 4.0) if cplx else float(rng_.integers(-12, 13)) / 4.0
+        if c == 0:
+            c = 1.5
+        if rng_.integers(0, 4) == 0:
+            c = c * 2.0 ** int(rng_.choice([-10, 12]))
+        return c * x, '(@vscale _ ops %s %s)' % (cz(c), czl(x)), {'c': str(c)}
+    cases, meta = AC.gen(ctx, ctx.q(8, 80), scaled, 'scaled')
+    for i in ctx.coq_cases('c03_arma_scaled', AC.pre(), cases, shard=4,
+                           descr='arma_estimate at c*x (every outcome code, AR / MA / rho, oracle residual exactly zero) vs Model.ArmaEst.arma_estimate at QcC'):
+        ctx.corr_disagreement('arma_estimate', i, meta[i])
+
+    # ---------------- DaniellPeriodogram against Model/Daniell.v: (a) the smoother on the implementation's own speriodogram output,
+    # binary64 bins read exactly (dyadic rationals, exact sums at QcC) and the same term run at binary64; (b) the whole function at
+    # scaled low-bit inputs on the exact 4-point grid
+    from spectrum import DaniellPeriodogram
+    import warnings
+    cases_q = []; cases_f = []; cases_g = []; meta_q = []; meta_g = []
+    guard = 0
+    while len(cases_q) < ctx.q(40, 300) and guard < 5000:
+        guard += 1
+        cplx = bool(rng.integers(0, 2)); N = int(rng.integers(6, 49)); P = int(rng.integers(1, 7))
+        NFFT = [None, N, N + 3, 2 * N, 32, 33, 64][int(rng.integers(0, 7))]
+        if NFFT is not None and NFFT < N:
+            NFFT = N
+        x, kind = gen(rng, N, cplx)
+        sbf = bool(rng.integers(0, 2)); fs = float(rng.choice([1.0, 7.5, 1024.0])); dt = [None, 'mean', True][int(rng.integers(0, 3))]
+        wname = str(rng.choice(['hamming', 'hann', 'rectangular']))
+        with warnings.catch_warnings():
+            warnings.simplefilter('ignore')
+            psd = speriodogram(x, NFFT=NFFT, detrend=dt, sampling=fs, scale_by_freq=sbf, window=wname)
+            new, _freq = DaniellPeriodogram(x, P, NFFT=NFFT, detrend=dt, sampling=fs, scale_by_freq=sbf, window=wname)
+        psd = np.asarray(psd, dtype=float); new = np.asarray(new, dtype=float)
+        if not (np.all(np.isfinite(psd)) and np.all(np.isfinite(new))):
+            ctx.count('regenerated_degenerate'); continue
+        cases_q.append('dan_smooth_case %s %s %d%%nat %s' % (tolq(1e-12), czl(psd), P, czl(new)))
+        cases_f.append('dan_smooth_float 0x1p-40 %s %d%%nat %s' % (vlib.fll(psd), P, vlib.fll(new)))
+        meta_q.append({'function': 'DaniellPeriodogram (smoother)', 'x': vlib.hexv(np.asarray(x, dtype=complex)), 'P': P, 'NFFT': NFFT, 'bins': int(len(psd))})
+        ctx.count('corr/daniell/%s/%s' % ('odd-bins' if len(psd) % 2 else 'even-bins', 'complex' if cplx else 'real'))
+        ctx.case(('daniell', x.tobytes(), P, NFFT, sbf, fs, str(dt), wname), nontrivial=(len(new) >= 2),
+                 sample={'function': 'DaniellPeriodogram smoother vs Model.Daniell', 'N': N, 'P': P, 'NFFT': NFFT, 'bins': int(len(psd)), 'out': int(len(new))})
+    for _ in range(ctx.q(12, 100)):
+        cplx = bool(rng.integers(0, 2)); N = int(rng.integers(2, 5)); P = int(rng.integers(1, 3)); x = lowbit(rng, N, cplx)
+        c = (complex(rng.integers(-6, 7), rng.integers(-6, 7)) / 4.0) if cplx else float(rng.integers(-12, 13)) / 4.0
+        if c == 0:
+            c = -2.5
+        wname = str(rng.choice(['hamming', 'hann', 'rectangular'])) if N > 2 else 'rectangular'
+        dt = str(rng.choice(['none', 'true', 'mean']))
+        with warnings.catch_warnings():
+            warnings.simplefilter('ignore')
+            new, _freq = DaniellPeriodogram(c * x, P, NFFT=4, detrend={'none': None, 'true': True, 'mean': 'mean'}[dt], scale_by_freq=False, window=wname)
+        w = np.asarray(Window(N, wname).data, dtype=float)
+        cases_g.append('dan_full_case %s %s %s %s %d%%nat %s %s %s' % (tolq(1e-10), cz(c), czl(x), czl(w), P, 'false' if cplx else 'true',
+                       {'none': 'PyNone', 'true': 'PyTrue', 'mean': 'PyStr'}[dt], czl(np.asarray(new, dtype=float))))
+        meta_g.append({'function': 'DaniellPeriodogram at c*x (4-point grid)', 'x': vlib.hexv(np.asarray(x, dtype=complex)), 'c': str(c), 'P': P})
+        ctx.count('corr/daniell_grid/%s' % ('complex' if cplx else 'real'))
+        ctx.case(('daniell4', x.tobytes(), str(c), P, wname, dt), nontrivial=True, sample={'function': 'DaniellPeriodogram at c*x, NFFT=4', 'c': str(c), 'P': P})
+    for i in ctx.coq_cases('c03_daniell', PRE_DANIELL, cases_q + cases_g, shard=60,
+                           descr='DaniellPeriodogram: smoother on the implementation\'s bins (exact sums at QcC) and the whole function at scaled inputs on the 4-point grid vs Model/Daniell.v'):
+        ctx.corr_disagreement('DaniellPeriodogram', i, (meta_q + meta_g)[i])
+    for i in ctx.coq_cases('c03_daniell_float', PRE_DANIELL_F, cases_f, shard=100, descr='the smoother of Model/Daniell.v run at binary64 vs DaniellPeriodogram'):
+        ctx.corr_disagreement('DaniellPeriodogram', i, meta_q[i])
+
+    # ---------------- operation history: the PSD of an object is computed, the data are rescaled THROUGH the object (p.data *= c hands the
+    # object's own array back to the data setter), the PSD and the model parameters are read again
+    for it in range(ctx.q(2, 10) * len(E.CLASSES)):
+        cls = E.CLASSES[it % len(E.CLASSES)]
+        cplx = bool(rng.integers(0, 2)); N = int(rng.integers(16, 65))
+        x, kind = gen(rng, N, cplx)
+        cfg = E.default_cfg(cls, N, rng, cplx)
+        NFFT = int(rng.choice([N, N + 1, 2 * N, 64, 67])); NFFT = max(NFFT, N)
+        sampling = float(rng.choice([1.0, 7.5, 1024.0]))
+        c = rand_scalar(rng, cplx)
+        tag = 'complex' if cplx else 'real'
+        ctx.count('search/history/%s/%s' % (cls, tag))
+        ctx.case(('hist', cls, json.dumps(jcfg(cfg), sort_keys=True), NFFT, sampling, x.tobytes(), str(c)), nontrivial=True,
+                 sample={'estimator': cls, 'history': 'psd; data *= c; psd', 'cfg': jcfg(cfg), 'N': N, 'NFFT': NFFT, 'datatype': tag, 'c': str(c)})
+        rep = {'form': 'class-inplace', 'estimator': cls, 'cfg': jcfg(cfg), 'NFFT': NFFT, 'sampling': sampling,
+               'x': vlib.hexv(np.asarray(x, dtype=complex)), 'datatype': tag, 'c': [float(np.real(c)).hex(), float(np.imag(c)).hex()]}
+        try:
+            bad = one_class_inplace(cls, x, cfg, NFFT, sampling, c)
+        except Exception as e:
+            ctx.count('search/history/%s/raised' % cls); continue
+        for oname, what in bad:
+            ctx.violation('scale-inplace/%s/%s' % (cls, oname), '%s after p.data *= c, %s: %s' % (cls, oname, what), rep)
+
+    # ---------------- complex-typed data whose imaginary part is identically zero (a real record cast to complex, an ifft output) times a
+    # genuinely complex scalar: the Fourier family must treat both as complex data (same layout, |c|^2)
+    for it in range(ctx.q(12, 60)):
+        N = int(rng.integers(16, 65))
+        xr, kind = gen(rng, N, False)
+        x = np.asarray(xr, dtype=complex)
+        c = rand_scalar(rng, True)
+        if abs(c.imag) < 1e-3 * abs(c):
+            c = c * np.exp(0.7j)
+        rep_c = [float(np.real(c)).hex(), float(np.imag(c)).hex()]
+        if it % 2 == 0:
+            name = ['speriodogram', 'CORRELOGRAMPSD'][(it // 2) % 2]
+            cfg = fn_cfg(name, N, rng, True)
+            ctx.count('search/zero-imag/function/%s' % name)
+            ctx.case(('zi', name, json.dumps(jcfg(cfg), sort_keys=True), x.tobytes(), str(c)), nontrivial=True,
+                     sample={'estimator': name, 'cfg': jcfg(cfg), 'N': N, 'datatype': 'complex dtype, zero imaginary part', 'c': str(c)})
+            rep = {'form': 'function', 'estimator': name, 'cfg': jcfg(cfg), 'x': vlib.hexv(x), 'datatype': 'complex', 'c': rep_c}
+            try:
+                bad = one_function(name, x, cfg, c)
+            except Exception as e:
+                bad = [('raises', 'raised %s: %s' % (type(e).__name__, str(e)[:80]))]
+            for oname, what in bad:
+                ctx.violation('scale/%s/%s' % (name, oname), '%s, %s (complex dtype, zero imaginary part): %s' % (name, oname, what), rep)
+        else:
+            cls = ['Periodogram', 'pcorrelogram'][(it // 2) % 2]
+            cfg = E.default_cfg(cls, N, rng, True)
+            NFFT = int(rng.choice([N, N + 1, 2 * N, 64, 67])); NFFT = max(NFFT, N)
+            ctx.count('search/zero-imag/class/%s' % cls)
+            ctx.case(('zi', cls, json.dumps(jcfg(cfg), sort_keys=True), NFFT, x.tobytes(), str(c)), nontrivial=True,
+                     sample={'estimator': cls, 'cfg': jcfg(cfg), 'N': N, 'NFFT': NFFT, 'datatype': 'complex dtype, zero imaginary part', 'c': str(c)})
+            rep = {'form': 'class', 'estimator': cls, 'cfg': jcfg(cfg), 'NFFT': NFFT, 'sampling': 1.0, 'x': vlib.hexv(x), 'datatype': 'complex', 'c': rep_c}
+            try:
+                bad = one_class(cls, x, cfg, NFFT, 1.0, c)
+            except Exception as e:
+                bad = [('raises', 'raised %s: %s' % (type(e).__name__, str(e)[:80]))]
+            for oname, what in bad:
+                ctx.violation('scale/%s/%s' % (cls, oname), '%s, %s (complex dtype, zero imaginary part): %s' % (cls, oname, what), rep)
